@@ -134,6 +134,13 @@ example : ∃ m, append (fun _ => 0) sample sample.unweld = some m ∧ m.attrLen
 theorem setAttr_wf {m : MeshVal α} (h : WF m) (k : AttrKey) (data : List α)
     (hd : data.length = m.attrLen ∨ m.attrs = []) : WF (m.setAttr k data) := MeshVal.setAttr_wf h k data hd
 
+/-- `SetFloatNAttribute(attr, empty)` deletes the key: still WF when another attribute array remains or the
+    mesh has no index (deleting the only array of an indexed mesh is the one way this setter breaks WF). -/
+theorem setAttr_delete_wf {m : MeshVal α} (h : WF m) (k : AttrKey)
+    (hk : (∃ kd ∈ m.attrs, kd.1 ≠ k) ∨ m.indices = []) : WF (m.setAttr k []) := MeshVal.setAttr_delete_wf h k hk
+
+example : WF (sample.setAttr ⟨1, "Class"⟩ []) ∧ (sample.setAttr ⟨1, "Class"⟩ []).attrs.length = 1 := by decide
+
 /-- every transform that rewrites one attribute array by a length-preserving function:
     `ModifyFloatNAttribute`, `Translate`, `Scale`, `Rotate`, `ApplyTRS`, meshops `TranslateAttribute3D`,
     `ScaleAttribute3D/2D`, `ScaleAttributeAlongNormal`, `RotateAttribute3D`, `CenterFloat3Attribute`,
